@@ -7,7 +7,7 @@
 //!   rscript  = per poll_read call: n > 0 deliver up to n bytes; 0 = Pending (self-waking);
 //!              4000000001 = read error.  Exhausted: deliver all that is available.
 //!   wscript  = per poll_write(_vectored) call: k > 0 accept up to k bytes; 0 = Pending (self-waking);
-//!              4000000001 = Ok(0); 4000000002 = write error.  Exhausted: accept everything.
+//!              4000000001 = Ok(0); 4000000002 = write error (BrokenPipe); 4000000003 = write error of kind ConnectionAborted.  Exhausted: accept everything.
 //!   segtable = [gate_end, gate_mgmt, len]*: the client sends `len` more bytes of <wire> once the
 //!              server has written >= gate_end EndRequest records and >= gate_mgmt management replies
 //!              (GetValuesResult / Unknown records).  After the last segment: EOF.
@@ -43,6 +43,7 @@ pub fn dispatch(mode: &str, a: &Args) -> Option<Args> {
 const R_ERR: u128 = 4_000_000_001;
 const W_ZERO: u128 = 4_000_000_001;
 const W_ERR: u128 = 4_000_000_002;
+const W_ERR_AB: u128 = 4_000_000_003;
 
 struct World {
     rscript: Vec<u128>,
@@ -165,6 +166,10 @@ impl Writer {
         }
         if k == W_ERR {
             return Poll::Ready(Err(io::ErrorKind::BrokenPipe.into()));
+        }
+        if k == W_ERR_AB {
+            // a transport error whose kind happens to be ConnectionAborted (ECONNABORTED)
+            return Poll::Ready(Err(io::ErrorKind::ConnectionAborted.into()));
         }
         let mut n = (k.min(usize::MAX as u128) as usize).min(total);
         let ret = n;
@@ -303,6 +308,22 @@ async fn run_script(
                     push(vec![7, r.as_ref().map_or_else(errkind, |_| 0)]);
                 } else {
                     push(vec![7, 99]);
+                }
+                i += 2;
+            },
+            10 => {
+                // req.read(&mut buf).await? : a handler that propagates read errors
+                let mut buf = vec![0u8; a(1) as usize];
+                match req.read(&mut buf).await {
+                    Ok(n) => {
+                        push(vec![1, 1, n as u128]);
+                        push(nums(&buf[..n]));
+                    },
+                    Err(e) => {
+                        push(vec![1, 0, errkind(&e)]);
+                        push(vec![]);
+                        return Err(e);
+                    },
                 }
                 i += 2;
             },
